@@ -378,4 +378,29 @@ digest and different from it is compared as if it were the digest -/
 theorem normalised_checksum_witness :
     comparedSum ⟨true, 0, true, false⟩ (fun b => (b.zipIdx.filter (fun x => x.2 % 2 == 1)).map (·.1)) [0, 7, 0, 9] = [7, 9] := by decide
 
+/-- **Anything around the true digest is rejected** — a line terminator left by a checksum file included: a checksum
+that is the file's digest with bytes put before or after it never verifies. -/
+theorem padded_checksum_rejected (h : Bytes → Bytes) (s : SecureCfg) (b pre suf : Bytes)
+    (hp : pre ++ suf ≠ []) (hs : s.checksum = pre ++ h (s.written ++ b) ++ suf) :
+    check h s (.data b) ≠ .ok true := by
+  intro hc
+  obtain ⟨_, _, b', hb, heq⟩ := (check_true_iff h s (.data b)).1 hc
+  cases hb
+  rw [hs] at heq
+  have hl := congrArg List.length heq
+  simp only [List.length_append] at hl
+  have h1 : pre = [] := List.eq_nil_of_length_eq_zero (by omega)
+  have h2 : suf = [] := List.eq_nil_of_length_eq_zero (by omega)
+  simp [h1, h2] at hp
+
+/-- Witness: a `Check` that trims trailing CR/LF from a local copy of the checksum compares `[7, 9]` when `[7, 9, 13, 10]`
+was configured (and would reject a true digest that happens to end in 0x0a) -/
+theorem trimmed_checksum_witness :
+    comparedSum ⟨true, 0, true, false⟩ (fun b => (b.reverse.dropWhile (fun x => x == 10 || x == 13)).reverse) [7, 9, 13, 10] = [7, 9] ∧
+    comparedSum ⟨true, 0, true, false⟩ (fun b => (b.reverse.dropWhile (fun x => x == 10 || x == 13)).reverse) [7, 10] ≠ [7, 10] := by decide
+
+/-- non-vacuity of `padded_checksum_rejected`: the digest `[7, 9]` followed by a newline -/
+example : check (fun _ => [7, 9]) ⟨[7, 9, 10], false, []⟩ (.data [1]) = .ok false ∧
+    check (fun _ => [7, 9]) ⟨[7, 9], false, []⟩ (.data [1]) = .ok true := by decide
+
 end GoPlugin.Props.C13
